@@ -58,7 +58,13 @@ type sched struct {
 	resume   chan struct{} // mode 1: closed when Cancel returned
 	allDone  chan struct{} // closed when the last writer finished
 	reached  map[string]int
+
+	graceExpired atomic.Int64
 }
+
+// parkGrace bounds how long a goroutine is held at a yield point when the
+// condition it waits for does not come about.
+const parkGrace = 500 * time.Millisecond
 
 func (s *sched) hook(name string) {
 	switch name {
@@ -74,7 +80,13 @@ func (s *sched) hook(name string) {
 		case 1:
 			if n == s.spec.ParkArrival {
 				close(s.parked)
-				<-s.resume
+				// The grace period only chooses between two legal schedules: if
+				// Cancel cannot finish while this writer is parked, the writer goes on.
+				select {
+				case <-s.resume:
+				case <-time.After(parkGrace):
+					s.graceExpired.Add(1)
+				}
 			}
 		case 3:
 			s.delay(n)
@@ -86,6 +98,7 @@ func (s *sched) hook(name string) {
 			// Cancel holds the subscription lock here. Wait until J writers are
 			// between their storage write and the end of their Put (they queue up
 			// behind the lock), or no more writers can come.
+			deadline := time.Now().Add(parkGrace)
 			for {
 				need := s.spec.J
 				if rest := s.k - s.finished; rest < need {
@@ -94,7 +107,19 @@ func (s *sched) hook(name string) {
 				if s.inflight >= need {
 					break
 				}
+				if time.Now().After(deadline) {
+					// grace period: go on with the (equally legal) schedule in which
+					// the writers come later
+					s.graceExpired.Add(1)
+					break
+				}
+				wake := time.AfterFunc(20*time.Millisecond, func() {
+					s.mu.Lock()
+					s.cond.Broadcast()
+					s.mu.Unlock()
+				})
 				s.cond.Wait()
+				wake.Stop()
 			}
 		}
 		n := s.arrivals
@@ -435,6 +460,9 @@ func runConc(t fataler, spec concSpec) {
 	}
 
 	stats.Class(fmt.Sprintf("conc_mode_%d", spec.Mode))
+	if sc.graceExpired.Load() > 0 {
+		stats.Class("conc_park_grace_expired")
+	}
 	sc.mu.Lock()
 	if sc.reached["db.put.stored"] > 0 {
 		stats.Class("conc_reached_db.put.stored")
